@@ -1,9 +1,10 @@
 SPECIFICATION Spec
 CONSTANTS
   OAuthEscapes = TRUE
+  SpecRouteEscaped = FALSE
   MaxSegs = 3
   MaxPayload = 3
-  SegIds = {"docs", "swagger.json", "api", "api.json", "specs", "..", "empty"}
+  SegIds = {"docs", "swagger.json", "api", "api.json", "specs", "..", "empty", "my specs"}
   PayloadBytes = {97, 60, 62, 38, 34, 39, 43, 47, 92, 32}
 INVARIANTS RoutingHolds EscapingHolds
 CHECK_DEADLOCK FALSE
